@@ -100,6 +100,9 @@ crc32_iscsi_01:
 	mov	crc_init, crc_init_arg
 %endif
 
+	;; len is a 32-bit int: the upper half of its register is unspecified
+	movsxd	len, len_dw
+
 	;; If len is less than 8 we need to jump to special code to avoid
 	;; reading beyond the end of the buffer
 	cmp	len, 8
